@@ -428,7 +428,8 @@ class File(resource.Resource, filepath.FilePath[str]):
         """
         size = self.getFileSize()
         if start is None:
-            start = size - end
+            # A suffix longer than the resource selects the whole resource.
+            start = max(size - end, 0)
             end = size
         elif end is None:
             end = size
